@@ -164,49 +164,13 @@ def r_root(ck: Checker) -> None:
         ck.violation("R-XP-ROOT", f, inline[0], what, construct="findall: the wrapper is not bound to a local, its child records cannot be recognised (wrapper field visible to the predicate)")
         return
     dv = dummies[0].targets[0].id
-    helpers = [st for st in fn.body if isinstance(st, ast.FunctionDef)]
-    san = None
-    for h in helpers:
-        p = h.args.args[0].arg if h.args.args else None
-        if p is None:
-            continue
-        leaves = decision_tree(strip_docstring(h.body))
-        key = "is(" + ",".join(sorted((dv, f"{p}.parent"))) + ")"
-        ok = bool(leaves)
-        for lf in leaves:
-            if set(lf.assign) != {key}:
-                ok = False
-                break
-            v = lf.val() or ""
-            if lf.assign[key] and (lf.value is None or record_args(ck, lf.value) != [f"{p}.node", "None", "None", "None"]):
-                ok = False
-            if not lf.assign[key] and v != p:
-                ok = False
-        if ok:
-            san = h.name
-    if san is None:
-        ck.violation("R-XP-ROOT", f, fn, what, construct="findall: no sanitiser mapping records of the wrapper's child to (node, None, None, None)")
-        return
-    calls = [c for c in walk_body(fn.body) if isinstance(c, ast.Call) and dotted(c.func) == "_match_node_element"]
-    bad = []
-    for c in calls:
-        arg = c.args[0]
-        ok = False
-        if isinstance(arg, ast.Call) and dotted(arg.func) == san:
-            ok = True
-        elif isinstance(arg, ast.Name):
-            # every binding of that local before the call is a sanitiser call
-            binds = [st for st in walk_body(fn.body) if isinstance(st, ast.Assign) and any(isinstance(t, ast.Name) and t.id == arg.id for t in st.targets)]
-            loopb = [st for st in walk_body(fn.body) if isinstance(st, ast.For) and any(isinstance(x, ast.Name) and x.id == arg.id for x in ast.walk(st.target))]
-            ok = bool(binds) and not loopb and all(isinstance(b.value, ast.Call) and dotted(b.value.func) == san for b in binds)
-        if not ok:
-            bad.append(norm(c)[:60])
-    if bad:
-        ck.violation("R-XP-ROOT", f, fn, what, construct=f"findall: {bad[0]} receives a record that did not pass the root sanitiser")
-    elif not calls:
+    model = findall_model(ck, f, dv)
+    if model["root_bad"]:
+        ck.violation("R-XP-ROOT", f, fn, what, construct=f"findall: {model['root_bad'][0]}")
+    elif not model["n_pred"]:
         ck.incomplete("R-XP-ROOT", f, fn, "no predicate call in findall")
     else:
-        ck.holds("R-XP-ROOT", f, fn, what, evaluations=len(calls), sanitiser=san)
+        ck.holds("R-XP-ROOT", f, fn, what, evaluations=model["n_pred"], sanitiser=model["sanitisers"] or "inlined")
     # match side: root info comes from Tree.get_parent_info
     g = ck.repo.func(XP, "_match_node_xpath")
     src = [st for st in walk_body(g.node.body) if isinstance(st, ast.Assign) and isinstance(st.value, ast.Call) and isinstance(st.value.func, ast.Attribute)
@@ -231,39 +195,128 @@ def r_root(ck: Checker) -> None:
     (ck.holds if ok else ck.violation)("R-XP-ROOT", g, g.node, what, **({} if ok else {"construct": "_match_node_xpath: record handed to the predicate is not (node, *get_parent_info(node))"}))
 
 
-def r_anywhere(ck: Checker) -> None:
-    f = ck.repo.func(XP, "ASTXpath.findall")
+def findall_model(ck: Checker, f: Func, dv: str) -> dict:
+    """The per-work-item step of findall, decided path by path (resolved decision trees):
+    which stream of candidate records is produced for `anywhere` / not, and which record reaches the step predicate.
+    Returns {"anywhere_bad": [...], "root_bad": [...], "n_pred": int, "sanitisers": [...], "inner": For, "leaves": int}."""
     fn = f.node
     outer = [st for st in fn.body if isinstance(st, ast.For) and norm(st.iter) == "self._elements"]
     if len(outer) != 1:
         raise Unsupported("findall: loop over self._elements not found", fn)
     el = norm(outer[0].target)
     inner = [st for st in outer[0].body if isinstance(st, ast.For)]
-    if len(inner) != 1:
+    if len(inner) != 1 or not isinstance(inner[0].target, ast.Name):
         raise Unsupported("findall: loop over the work set not found", outer[0])
-    wv = norm(inner[0].target)
-    leaves = decision_tree(inner[0].body)
-    key = f"{el}.anywhere"
-    bad = []
+    wv = inner[0].target.id
+    # verified sanitiser closures: record of the wrapper's child -> (node, None, None, None), everything else unchanged
+    sanitisers = []
+    for h in [st for st in fn.body if isinstance(st, ast.FunctionDef)]:
+        p = h.args.args[0].arg if h.args.args else None
+        if p is None:
+            continue
+        hl = decision_tree(strip_docstring(h.body))
+        key = k_is(dv, f"{p}.parent")
+        ok = bool(hl)
+        for lf in hl:
+            if set(lf.assign) != {key}:
+                ok = False
+                break
+            if lf.assign[key] and (lf.value is None or record_args(ck, lf.value) != [f"{p}.node", "None", "None", "None"]):
+                ok = False
+            if not lf.assign[key] and (lf.val() or "") != p:
+                ok = False
+        if ok:
+            sanitisers.append(h.name)
+    key_any = f"{el}.anywhere"
+    anywhere_bad: list[str] = []
+    root_bad: list[str] = []
+    n_pred = 0
+    leaves = decision_tree(inner[0].body, resolve="calls")
     for lf in leaves:
-        if key not in lf.assign:
-            bad.append("the step does not branch on `anywhere`")
+        if set(lf.assign) - {key_any}:
+            raise Unsupported(f"findall: the step decides on {sorted(set(lf.assign) - {key_any})}", inner[0])
+        if key_any not in lf.assign:
+            anywhere_bad.append("the step does not branch on `anywhere`")
             continue
         loops = [st for st in lf.stmts if isinstance(st, ast.For)]
         if len(loops) != 1:
-            bad.append(f"{len(loops)} candidate loops")
+            anywhere_bad.append(f"{len(loops)} candidate loops")
             continue
-        it = loops[0].iter
-        if lf.assign[key]:
-            owner = full_traversal(it)
-            if owner != f"{wv}.node":
-                bad.append(f"'//' step iterates {norm(it)[:50]} instead of a full traversal of the work node")
+        lp = loops[0]
+        it = lp.iter
+        kids_call = f"{wv}.node.get_child_nodes_with_field()"
+        kind = None
+        cand_args: list[str] | None = None
+        tname = lp.target.id if isinstance(lp.target, ast.Name) else None
+        if full_traversal(it) == f"{wv}.node":
+            kind = "subtree"
+        elif norm(it) == kids_call and isinstance(lp.target, ast.Tuple) and len(lp.target.elts) == 3:
+            kind = "children"
+            c_, f_, i_ = (norm(x) for x in lp.target.elts)
+            cand_args = [c_, f"{wv}.node", f_, i_]
+        elif isinstance(it, (ast.GeneratorExp, ast.ListComp)) and len(it.generators) == 1 and not it.generators[0].ifs and norm(it.generators[0].iter) == kids_call \
+                and isinstance(it.generators[0].target, ast.Tuple) and len(it.generators[0].target.elts) == 3:
+            c_, f_, i_ = (norm(x) for x in it.generators[0].target.elts)
+            inner_elt = it.elt
+            while isinstance(inner_elt, ast.Call) and dotted(inner_elt.func) in sanitisers and len(inner_elt.args) == 1:
+                inner_elt = inner_elt.args[0]
+            if record_args(ck, inner_elt) == [c_, f"{wv}.node", f_, i_]:
+                kind = "children-records" if inner_elt is it.elt else "children-sanitised"
+        if kind is None:
+            if lf.assign[key_any]:
+                anywhere_bad.append(f"'//' step iterates {norm(it)[:50]} instead of a full traversal of the work node")
             else:
-                ck.holds("R-FULLTRAV", f, loops[0], "the '//' branch of findall iterates a full traversal of the work node")
-        else:
-            if not (isinstance(it, ast.Call) and isinstance(it.func, ast.Attribute) and it.func.attr == "get_child_nodes_with_field"
-                    and norm(it.func.value) == f"{wv}.node" and not it.args and not it.keywords):
-                bad.append(f"'/' step iterates {norm(it)[:50]} instead of the direct children")
+                anywhere_bad.append(f"'/' step iterates {norm(it)[:50]} instead of the direct children")
+            continue
+        if lf.assign[key_any] and kind != "subtree":
+            anywhere_bad.append(f"'//' step iterates {norm(it)[:50]} instead of a full traversal of the work node")
+        elif not lf.assign[key_any] and kind == "subtree":
+            anywhere_bad.append(f"'/' step iterates {norm(it)[:50]} instead of the direct children")
+        elif lf.assign[key_any]:
+            ck.holds("R-FULLTRAV", f, lp, "the '//' branch of findall iterates a full traversal of the work node")
+        # which record reaches the predicate
+        for bl in decision_tree(lp.body, resolve="calls"):
+            for k in bl.assign:
+                if not k.startswith("_match_node_element("):
+                    continue
+                n_pred += 1
+                call = ast.parse(k, mode="eval").body
+                R = call.args[0]  # type: ignore[attr-defined]
+                ok = False
+                Rin = R
+                if isinstance(R, ast.Call) and dotted(R.func) in sanitisers and len(R.args) == 1:
+                    Rin = R.args[0]
+                    ok = (tname is not None and norm(Rin) == tname) or (cand_args is not None and record_args(ck, Rin) == cand_args)
+                elif kind == "children-sanitised" and tname is not None and norm(R) == tname:
+                    ok = True
+                elif tname is not None:
+                    kk = k_is(f"{tname}.parent", dv)
+                    if bl.assign.get(kk) is True:
+                        ok = record_args(ck, R) == [f"{tname}.node", "None", "None", "None"]
+                    elif bl.assign.get(kk) is False:
+                        ok = norm(R) == tname
+                elif cand_args is not None:
+                    kk = k_is(f"{wv}.node", dv)
+                    if bl.assign.get(kk) is True:
+                        ok = record_args(ck, R) == [cand_args[0], "None", "None", "None"]
+                    elif bl.assign.get(kk) is False:
+                        ok = record_args(ck, R) == cand_args
+                if not ok:
+                    root_bad.append(f"_match_node_element({norm(R)[:50]}, ...) receives a record that did not pass the root sanitiser")
+    return {"anywhere_bad": anywhere_bad, "root_bad": root_bad, "n_pred": n_pred, "sanitisers": sanitisers, "inner": inner[0], "leaves": len(leaves)}
+
+
+def r_anywhere(ck: Checker) -> None:
+    f = ck.repo.func(XP, "ASTXpath.findall")
+    fn = f.node
+    dummies = [st for st in walk_body(fn.body) if isinstance(st, ast.Assign) and isinstance(st.value, ast.Call) and dotted(st.value.func) == "_DUMMY_XPATH_ROOT"
+               and isinstance(st.targets[0], ast.Name)]
+    if len(dummies) != 1:
+        raise Unsupported("findall: the synthetic root wrapper is not bound to one local", fn)
+    model = findall_model(ck, f, dummies[0].targets[0].id)
+    inner = [model["inner"]]
+    bad = model["anywhere_bad"]
+    leaves = range(model["leaves"])
     what = "findall: a '//' step searches the whole subtree of each work node, a '/' step only its direct children"
     if bad:
         ck.violation("R-XP-ANYWHERE", f, inner[0], what, construct=f"findall: {bad[0]}")
